@@ -70,7 +70,98 @@ func Load(root, module string, patterns []string) (*Prog, error) {
 		return nil, err
 	}
 	p.synthesizeAutos()
+	p.fanOutInterfaces()
 	return p, nil
+}
+
+// fanOutInterfaces copies every `interface` contract onto the concrete methods of all types of
+// the module that implement the interface (behavioural subtyping: each implementer is verified
+// against the contract that callers use at invoke sites).
+func (p *Prog) fanOutInterfaces() {
+	var ifaceCons []*Contract
+	for _, c := range p.Contracts.ByKey {
+		if c.Iface {
+			ifaceCons = append(ifaceCons, c)
+		}
+	}
+	sort.Slice(ifaceCons, func(i, j int) bool { return ifaceCons[i].Key < ifaceCons[j].Key })
+	for _, c := range ifaceCons {
+		// key: (path.Type).Method
+		k := c.Key
+		i := strings.LastIndex(k, ").")
+		if !strings.HasPrefix(k, "(") || i < 0 {
+			continue
+		}
+		tn, mname := k[1:i], k[i+2:]
+		j := strings.LastIndex(tn, ".")
+		if j < 0 {
+			continue
+		}
+		ipkg := p.Pkgs[tn[:j]]
+		if ipkg == nil {
+			continue
+		}
+		obj, ok := ipkg.Types.Scope().Lookup(tn[j+1:]).(*types.TypeName)
+		if !ok {
+			continue
+		}
+		iface, ok := obj.Type().Underlying().(*types.Interface)
+		if !ok {
+			continue
+		}
+		var paths []string
+		for path := range p.Pkgs {
+			if strings.HasPrefix(path, p.Module) {
+				paths = append(paths, path)
+			}
+		}
+		sort.Strings(paths)
+		for _, path := range paths {
+			pk := p.Pkgs[path]
+			sc := pk.Types.Scope()
+			for _, name := range sc.Names() {
+				t, ok := sc.Lookup(name).(*types.TypeName)
+				if !ok || t.IsAlias() {
+					continue
+				}
+				if _, isI := t.Type().Underlying().(*types.Interface); isI {
+					continue
+				}
+				var recvT types.Type
+				switch {
+				case types.Implements(t.Type(), iface):
+					recvT = t.Type()
+				case types.Implements(types.NewPointer(t.Type()), iface):
+					recvT = types.NewPointer(t.Type())
+				default:
+					continue
+				}
+				sel := types.NewMethodSet(recvT).Lookup(pk.Types, mname)
+				if sel == nil {
+					continue
+				}
+				fn := p.SSA.MethodValue(sel)
+				if fn == nil || fn.Synthetic != "" || fn.Blocks == nil {
+					continue // promoted through embedding: the embedded type's own method is checked
+				}
+				key := fn.String()
+				if _, exists := p.Contracts.ByKey[key]; exists {
+					continue
+				}
+				d := *c
+				d.Key = key
+				d.Iface = false
+				d.Assumed = false
+				d.Derived = c.Key
+				d.Used = false
+				d.Claims = map[string]bool{}
+				for kk, v := range c.Claims {
+					d.Claims[kk] = v
+				}
+				p.Contracts.ByKey[key] = &d
+			}
+		}
+	}
 }
 
 func callsAppend(fn *ssa.Function, depth int) bool {
@@ -268,4 +359,40 @@ func exprIndex(fn *ssa.Function) map[token.Pos]ast.Node {
 		return true
 	})
 	return m
+}
+
+// findPkg resolves a package qualifier as seen from the file that declares the function
+// under proof (import aliases are per file), falling back to the package-wide lookup.
+func (x *exec) findPkg(from *types.Package, name string) *types.Package {
+	if x.file != nil {
+		for _, imp := range x.file.Imports {
+			path := strings.Trim(imp.Path.Value, "\"")
+			q, ok := x.p.Pkgs[path]
+			if !ok {
+				continue
+			}
+			local := q.Name
+			if imp.Name != nil {
+				local = imp.Name.Name
+			}
+			if local == name {
+				return q.Types
+			}
+		}
+	}
+	return x.p.findPkg(from, name)
+}
+
+// fileOf finds the syntax file containing a position.
+func (p *Prog) fileOf(pkgPath string, pos token.Pos) *ast.File {
+	pk := p.Pkgs[pkgPath]
+	if pk == nil {
+		return nil
+	}
+	for _, f := range pk.Syntax {
+		if f.Pos() <= pos && pos <= f.End() {
+			return f
+		}
+	}
+	return nil
 }
